@@ -1,1 +1,262 @@
-/- C14 — property theorems (to be written) -/
+/-
+  C14 — rank ids, shapes, defaults, formats and active ranges follow the data.
+  Property theorems only; helper lemmas live in FtProofs/Lemmas/MetaLemmas.lean.
+-/
+import FtProofs.Lemmas.MetaLemmas
+set_option linter.unusedSectionVars false
+set_option linter.unusedSimpArgs false
+set_option linter.unusedVariables false
+namespace Ft
+open Ft.C14
+
+/-- **split**: the carry-over block of `_splitGeneric` (formats looked up by rank id) yields the
+    documented Meta: X → X.1, X.0; the authoritative shape with X's entry duplicated; default and
+    mutability kept; both halves inherit X's format, every other rank keeps its own. -/
+theorem split_meta (m : Meta) (k : Nat) (s : String) (hwf : m.wfB = true)
+    (hk : m.ids[k]? = some (.one s))
+    (h1 : RId.one (s ++ ".1") ∉ m.ids) (h0 : RId.one (s ++ ".0") ∉ m.ids) :
+    mSplit k m = sSplit k m := by
+  obtain ⟨hl, hs, hn⟩ := (wfB_iff m).1 hwf
+  unfold mSplit sSplit
+  rw [hk]
+  simp only [Option.some.injEq, Meta.mk.injEq, true_and, and_true]
+  have hx : m.fmts[k]? = some (m.getFmt (.one s)) := lookD_getElem? Fmt.C m.ids m.fmts hn hl k _ hk
+  unfold dupAt
+  rw [take_succ_of_getElem? _ _ _ hx, drop_of_getElem? _ _ _ hx]
+  unfold splitIds
+  simp only [List.map_append, List.map_cons, List.map_nil, if_true]
+  have hne : RId.one (s ++ ".0") ≠ RId.one (s ++ ".1") := by
+    intro h; injection h with h; simp at h
+  simp only [hne, if_false, if_true]
+  have hA : ∀ r ∈ m.ids, (if r = RId.one (s ++ ".1") then m.getFmt (.one s)
+      else if r = RId.one (s ++ ".0") then m.getFmt (.one s) else m.getFmt r) = m.getFmt r := by
+    intro r hr
+    have a1 : r ≠ RId.one (s ++ ".1") := fun e => h1 (e ▸ hr)
+    have a0 : r ≠ RId.one (s ++ ".0") := fun e => h0 (e ▸ hr)
+    simp [a1, a0]
+  rw [List.map_congr_left (fun r hr => hA r (List.mem_of_mem_take hr)),
+      List.map_congr_left (fun r hr => hA r (List.mem_of_mem_drop hr))]
+  have t := map_take_lookD Fmt.C m.ids m.fmts hn hl k
+  have d := map_drop_lookD Fmt.C m.ids m.fmts hn hl (k + 1)
+  unfold Meta.getFmt
+  rw [t, d]
+  simp
+
+example : mSplit 0 ⟨[.one "M", .one "K"], some [.n 4, .n 5], 7, [.U, .C], true⟩ =
+    some ⟨[.one "M.1", .one "M.0", .one "K"], some [.n 4, .n 4, .n 5], 7, [.U, .U, .C], true⟩ := by decide
+
+/-- **swizzle**, what holds today: the identity order (a deep copy) and, for a real re-ordering,
+    tensors whose formats are all "C" and that are not mutable.  Rank ids, authoritative shape
+    (the `swiz_len` prefix re-arranged, the common suffix kept) and default are always right. -/
+theorem swizzle_meta_partial (m : Meta) (order : List RId) (hwf : m.wfB = true)
+    (hlen : order.length = m.ids.length)
+    (h : order = m.ids ∨ ((∀ f ∈ m.fmts, f = Fmt.C) ∧ m.mutable = false)) :
+    mSwizzle order m = sSwizzle order m := by
+  obtain ⟨hl, hs, hn⟩ := (wfB_iff m).1 hwf
+  unfold mSwizzle sSwizzle
+  by_cases he : m.ids = order
+  · subst he
+    simp only [if_true]
+    cases m with
+    | mk ids shape dflt fmts mutable =>
+      simp only [Meta.mk.injEq, true_and, and_true]
+      constructor
+      · cases shape with
+        | none => rfl
+        | some sh => simp only [Option.map_some, Option.some.injEq]
+                     exact (map_lookD_self default ids sh hn (hs sh rfl)).symm
+      · exact (map_lookD_self Fmt.C ids fmts hn hl).symm
+  · rcases h with h | ⟨hC, hm⟩
+    · exact absurd h.symm he
+    · simp only [he, if_false, Meta.mk.injEq, true_and]
+      refine ⟨?_, ?_, hm.symm⟩
+      · cases hsh : m.shape with
+        | none => rfl
+        | some sh =>
+          simp only [Option.map_some, Option.some.injEq]
+          have hd := swizLen_drop m.ids order hlen
+          have h2 := map_drop_lookD (default : Sx) m.ids sh hn (hs sh hsh) (swizLen m.ids order)
+          rw [← h2, ← hd, ← List.map_append, List.take_append_drop]
+      · apply List.map_congr_left
+        intro r _
+        exact (lookD_all Fmt.C m.ids m.fmts r hC).symm
+
+example : mSwizzle [.one "K", .one "M"] ⟨[.one "M", .one "K"], some [.n 4, .n 5], 7, [.C, .C], false⟩ =
+    ⟨[.one "K", .one "M"], some [.n 5, .n 4], 7, [.C, .C], false⟩ := by decide
+
+/-- … and the full statement is false for today's code: a re-ordering forgets formats and the
+    mutability hint (`Tensor.fromFiber` builds fresh ranks, tensor.py:1474-1488) — DESIGN §7 #10. -/
+theorem swizzle_meta_defect :
+    ∃ (m : Meta) (order : List RId), m.wfB = true ∧ order.length = m.ids.length ∧
+      (mSwizzle order m).ids = (sSwizzle order m).ids ∧ (mSwizzle order m).shape = (sSwizzle order m).shape ∧
+      (mSwizzle order m).fmts ≠ (sSwizzle order m).fmts ∧ (mSwizzle order m).mutable ≠ (sSwizzle order m).mutable :=
+  ⟨⟨[.one "M", .one "K"], some [.n 4, .n 5], 7, [.U, .C], true⟩, [.one "K", .one "M"], by decide⟩
+
+/-- **swap**, what holds today: ids exchanged, default and mutability kept, every rank keeps its
+    own format (looked up by id); the shape only when the operand's was not authoritative. -/
+theorem swap_meta_partial (m : Meta) (k : Nat) (eb : Bool) (hwf : m.wfB = true) (hshape : m.shape = none) :
+    mSwap k eb none m = sSwap k m := by
+  obtain ⟨hl, _, hn⟩ := (wfB_iff m).1 hwf
+  unfold mSwap sSwap
+  by_cases hk : k + 1 < m.ids.length
+  · simp only [hk, if_true, Option.some.injEq, Meta.mk.injEq, true_and, and_true, hshape, Option.map_none]
+    refine ⟨by cases eb <;> rfl, ?_⟩
+    rw [map_swapAt]
+    unfold Meta.getFmt
+    rw [map_lookD_self Fmt.C m.ids m.fmts hn hl]
+  · simp [hk]
+
+example : mSwap 0 false none ⟨[.one "M", .one "K"], none, 7, [.U, .C], true⟩ =
+    some ⟨[.one "K", .one "M"], none, 7, [.C, .U], true⟩ := by decide
+
+/-- … the authoritative shape is dropped ("TBD: Create shape", tensor.py:1545-1547) — DESIGN §7 #10 -/
+theorem swap_meta_defect :
+    ∃ (m : Meta), m.wfB = true ∧ (mSwap 0 false none m).map (·.shape) ≠ (sSwap 0 m).map (·.shape) ∧
+      (mSwap 0 false none m).map (·.fmts) = (sSwap 0 m).map (·.fmts) :=
+  ⟨⟨[.one "M", .one "K"], some [.n 4, .n 5], 7, [.U, .C], true⟩, by decide⟩
+
+/-- **flatten / merge**: the merged id list, the shape entry the coordinate style defines, default
+    and mutability kept; surviving ranks keep their format (looked up by id), the merged rank is "C". -/
+theorem flatten_meta (m : Meta) (style : Style) (k levels : Nat) (hwf : m.wfB = true)
+    (hfresh : RId.many (((m.ids.drop k).take (levels + 1)).flatMap RId.toList) ∉ m.ids) :
+    mFlatten style k levels m = sFlatten style k levels m := by
+  obtain ⟨hl, _, hn⟩ := (wfB_iff m).1 hwf
+  have hf : (flatIds k levels m.ids).map m.fmtOrC =
+      m.fmts.take k ++ [Fmt.C] ++ m.fmts.drop (k + levels + 1) := by
+    unfold flatIds
+    simp only [List.map_append, List.map_cons, List.map_nil]
+    have hA : ∀ r ∈ m.ids, m.fmtOrC r = lookD m.ids m.fmts r Fmt.C := by
+      intro r hr; simp [Meta.fmtOrC, hr, Meta.getFmt]
+    rw [List.map_congr_left (fun r hr => hA r (List.mem_of_mem_take hr)),
+        List.map_congr_left (fun r hr => hA r (List.mem_of_mem_drop hr)),
+        map_take_lookD Fmt.C m.ids m.fmts hn hl, map_drop_lookD Fmt.C m.ids m.fmts hn hl]
+    simp [Meta.fmtOrC, hfresh]
+  unfold mFlatten sFlatten
+  simp only [hf]
+
+example : mFlatten .tuple 0 1 ⟨[.one "M", .one "K", .one "N"], some [.n 4, .n 5, .n 6], 7, [.U, .C, .U], true⟩ =
+    some ⟨[.many ["M", "K"], .one "N"], some [.cons (.n 4) (.cons (.n 5) .nil), .n 6], 7, [.C, .U], true⟩ := by
+  decide
+
+/-- **unflatten**, what holds today: for a tensor with leaf default 0 whose shape is authoritative,
+    the inverse re-arrangement of ids and shape, mutability kept, surviving ranks keep their format
+    and the `levels + 1` new ranks are "C". -/
+theorem unflatten_meta_partial (m : Meta) (k l : Nat) (s : List Sx) (ids' : List RId) (hwf : m.wfB = true)
+    (hshape : m.shape = some s) (hd : m.dflt = 0) (hids : unflIds (l + 1) k m.ids = some ids')
+    (hnew : ∀ r ∈ (ids'.drop k).take (l + 2), r ∉ m.ids) :
+    mUnflatten k (l + 1) s m = sUnflatten k (l + 1) m := by
+  obtain ⟨hl, _, hn⟩ := (wfB_iff m).1 hwf
+  obtain ⟨news, hnl, he⟩ := unflIds_form l k m.ids ids' hids
+  have hklt : k < m.ids.length := by
+    rw [unflIds] at hids
+    cases hh : m.ids[k]? with
+    | none => rw [hh] at hids; cases hids
+    | some v => exact (List.getElem?_eq_some_iff.1 hh).1
+  have hlen : (m.ids.take k).length = k := by simp; omega
+  have hnews : (ids'.drop k).take (l + 2) = news := by
+    have := drop_take_mid (m.ids.take k) news (m.ids.drop (k + 1))
+    rw [hlen, hnl] at this
+    rw [he]; exact this
+  rw [hnews] at hnew
+  have hf : ids'.map m.fmtOrC = m.fmts.take k ++ List.replicate (l + 1 + 1) Fmt.C ++ m.fmts.drop (k + 1) := by
+    rw [he]
+    simp only [List.map_append]
+    have hA : ∀ r ∈ m.ids, m.fmtOrC r = lookD m.ids m.fmts r Fmt.C := by
+      intro r hr; simp [Meta.fmtOrC, hr, Meta.getFmt]
+    rw [List.map_congr_left (fun r hr => hA r (List.mem_of_mem_take hr)),
+        List.map_congr_left (fun r hr => hA r (List.mem_of_mem_drop hr)),
+        map_take_lookD Fmt.C m.ids m.fmts hn hl, map_drop_lookD Fmt.C m.ids m.fmts hn hl]
+    congr 2
+    rw [← hnl]
+    apply List.ext_getElem
+    · simp
+    · intro i h1 h2
+      have hi : i < news.length := by simpa using h1
+      simp only [List.getElem_map, List.getElem_replicate]
+      have : news[i] ∉ m.ids := hnew _ (List.getElem_mem hi)
+      simp [Meta.fmtOrC, this]
+  unfold mUnflatten sUnflatten
+  rw [hids, hshape]
+  cases hu : unflShape (l + 1) k s with
+  | none => simp [hu]
+  | some s' => simp [hu, hf, hd]
+
+example : mUnflatten 0 1 [.cons (.n 4) (.cons (.n 5) .nil), .n 6]
+    ⟨[.many ["M", "K"], .one "N"], some [.cons (.n 4) (.cons (.n 5) .nil), .n 6], 0, [.C, .U], true⟩ =
+    some ⟨[.one "M", .one "K", .one "N"], some [.n 4, .n 5, .n 6], 0, [.C, .C, .U], true⟩ := by decide
+
+/-- … the leaf default is not carried (no `setDefault` in `unflattenRanks`) — DESIGN §7 #10 -/
+theorem unflatten_meta_defect :
+    ∃ (m : Meta) (s : List Sx), m.wfB = true ∧ m.shape = some s ∧
+      (mUnflatten 0 1 s m).map (·.dflt) ≠ (sUnflatten 0 1 m).map (·.dflt) ∧
+      (mUnflatten 0 1 s m).map (·.ids) = (sUnflatten 0 1 m).map (·.ids) ∧
+      (mUnflatten 0 1 s m).map (·.shape) = (sUnflatten 0 1 m).map (·.shape) :=
+  ⟨⟨[.many ["M", "K"], .one "N"], some [.cons (.n 4) (.cons (.n 5) .nil), .n 6], 7, [.C, .U], true⟩,
+   [.cons (.n 4) (.cons (.n 5) .nil), .n 6], by decide⟩
+
+/-- **unflatten is the inverse of flatten on rank ids**: flattening `levels + 1` atomic ranks at
+    depth `k` and unflattening `levels` times gives the id list back. -/
+theorem unflatten_flatten_ids (ids : List RId) (k l : Nat) (as : List String) (hal : as.length = l + 2)
+    (hatoms : (ids.drop k).take (l + 2) = as.map RId.one) (hk : k + l + 1 < ids.length) :
+    unflIds (l + 1) k (flatIds k (l + 1) ids) = some ids := by
+  unfold flatIds
+  rw [hatoms]
+  have hfm : ∀ (l : List String), (l.map RId.one).flatMap RId.toList = l := by
+    intro l
+    induction l with
+    | nil => rfl
+    | cons a r ih => simp [RId.toList, List.flatMap_cons, ih]
+  rw [hfm as]
+  have hlen : (ids.take k).length = k := by simp; omega
+  have := unflIds_many l (ids.take k) (ids.drop (k + (l + 1) + 1)) as hal
+  rw [hlen] at this
+  rw [this, ← hatoms]
+  congr 1
+  have e : ids.drop (k + (l + 1) + 1) = (ids.drop k).drop (l + 2) := by
+    rw [List.drop_drop]; congr 1
+  rw [e, List.append_assoc, List.take_append_drop, List.take_append_drop]
+
+/-- … and on authoritative shapes, for the coordinate styles `tuple` and `pair` -/
+theorem unflatten_flatten_shape (style : Style) (hst : style = .tuple ∨ style = .pair)
+    (s : List Sx) (k l : Nat) (hk : k + l + 1 < s.length) :
+    (flatShape style k (l + 1) s).bind (unflShape (l + 1) k) = some s := by
+  have hlen : (s.take k).length = k := by simp; omega
+  have hseg : ((s.drop k).take (l + 1 + 1)).length = l + 2 := by simp; omega
+  have e : s.drop (k + (l + 1) + 1) = (s.drop k).drop (l + 2) := by
+    rw [List.drop_drop]; congr 1
+  have fin : s.take k ++ (s.drop k).take (l + 1 + 1) ++ s.drop (k + (l + 1) + 1) = s := by
+    rw [e, List.append_assoc, List.take_append_drop, List.take_append_drop]
+  unfold flatShape
+  rcases hst with rfl | rfl
+  · simp only [flatEntry, Option.map_some, Option.bind_some]
+    have := unflShape_tuple l (s.take k) (s.drop (k + (l + 1) + 1)) _ hseg
+    rw [hlen] at this
+    rw [this, fin]
+  · simp only [flatEntry, Option.map_some, Option.bind_some]
+    have := unflShape_pair l (s.take k) (s.drop (k + (l + 1) + 1)) _ hseg
+    rw [hlen] at this
+    rw [this, fin]
+
+example : unflIds 2 1 (flatIds 1 2 [.one "A", .one "B", .one "C", .one "D"]) =
+    some [.one "A", .one "B", .one "C", .one "D"] := by decide
+example : (flatShape .pair 0 2 [.n 3, .n 4, .n 5]).bind (unflShape 2 0) = some [.n 3, .n 4, .n 5] := by decide
+
+/-- **updateCoords / updatePayloads**: a deep copy — every reported attribute is the operand's -/
+theorem update_meta (m : Meta) : mUpdate m = m := rfl
+
+/-- **constructors**: `fromFiber` (hence `fromUncompressed`, `fromRandom`) reports the given ids,
+    the declared shape as authoritative (none if not declared), the given default, every rank "C",
+    not mutable; `Tensor(...)` / `makePopulated` the same but mutable. -/
+theorem ctor_meta (ids : List RId) (shape : Option (List Sx)) (dflt : Int) :
+    (mFromFiber ids shape dflt).ids = ids ∧ (mFromFiber ids shape dflt).shape = shape ∧
+    (mFromFiber ids shape dflt).dflt = dflt ∧ (∀ f ∈ (mFromFiber ids shape dflt).fmts, f = Fmt.C) ∧
+    (mFromFiber ids shape dflt).fmts.length = ids.length ∧
+    (mFromFiber ids shape dflt).mutable = false ∧
+    mEmpty ids shape dflt = { mFromFiber ids shape dflt with mutable := true } := by
+  refine ⟨rfl, rfl, rfl, ?_, ?_, rfl, rfl⟩
+  · intro f hf
+    simp only [mFromFiber, List.mem_map] at hf
+    obtain ⟨_, _, rfl⟩ := hf; rfl
+  · simp [mFromFiber]
+
+end Ft
